@@ -576,13 +576,17 @@ def run_for(prop, tier, only=None):
     # ---- mechanical scan of the generated text for anything that is assumed rather than proved
     scan = {"assume(": len(re.findall(r"\bassume\s*\(", text)), "admit(": len(re.findall(r"\badmit\s*\(", text)),
             "external_body": re.findall(r"#\[verifier::external_body\]\s*\n\s*(?:pub(?:\(crate\))? )?(?:unsafe )?fn (\w+)", text),
+            "axioms": re.findall(r"broadcast axiom fn (\w+)", text),
             "assume_specification": [" ".join(x.split()) for x in re.findall(r"assume_specification\b.*?>\[\s*(.+?)\s*\]\s*\(", text)]}
     res["assumption_scan"] = scan
     trusted = [f["name"] for f in fns if f["trusted"]]
     res["trusted_functions"] = trusted
     res["assumptions"] = [
-        "Verus: assumed contracts (external_body, bodies not verified by Verus; discharged by the Kani units at N<=3/4): " + ", ".join(trusted)
-        + " - item_read because the move out of a MaybeUninit cell (cell treated as vacated afterwards) is an ownership discipline, not a fact about bytes; the others because their bodies call Iterator::enumerate (a provided trait method this Verus cannot specify) or the crate's own iterator types",
+        "Verus: assumed contracts (external_body; bodies not verified by Verus): " + ", ".join(trusted)
+        + " - item_read: the move out of a MaybeUninit cell (cell treated as vacated afterwards) is an ownership discipline, not a fact about bytes; "
+          "insert_ii / insert_ii_for_full: chains over iter_mut() whose skipped items have unresolved prophecies (their contract insert_post is discharged on the real bodies by the Kani units kh_insert_ii*_post_* at N in {1,2,3,9}); "
+          "Map::new: array-fill with a non-Copy element is outside this Verus; Iter::next(trait): the kept `impl Iterator for Iter` is assumed to obey vstd's iterator laws (its inherent copy is verified one step at a time)",
+        "Verus: assumed axioms / clauses of the second external specification of Iterator: " + ", ".join(scan["axioms"]) + "; enumerate (same items, each paired with its position), by_ref (identity)",
         "Verus: assumed specifications of core functions vstd does not cover: " + ", ".join(scan["assume_specification"])
         + "; Borrow::borrow is specified only under the hypothesis obeys_borrow (deterministic borrow_spec)",
         "Verus: vstd's own specifications of MaybeUninit::{assume_init_ref,assume_init_mut}, slice indexing/iter/iter_mut, Iterator::{find,next,...}, Option::{map,is_some,is_none}, `?` are trusted as part of vstd",
